@@ -199,3 +199,45 @@ def every_shipped_path_class_accepts_the_kernel_call():
         tr = new(cls, (0, 0, -100), (10, 0, -200), ice_model="ice")
         prove(cls.rsplit(".", 1)[1] + ":constructor-accepts-ice_model-keyword", tr.ice == "ice")
     prove("default-tracer", resolve("pyrex.ray_tracing.RayTracer") is resolve("pyrex.ray_tracing.SpecializedRayTracer"))
+
+
+# ---------------------------------------------------------------------------
+# the weight cut on its own (small scenario: 2 particles, 1 antenna, 1 solution each, every view far off the cone)
+# ---------------------------------------------------------------------------
+
+def _weight_cut(tag, weight_min, pair):
+    use_lib_stub("np.arccos", lambda x: pi)                 # viewing angle pi: off the cone for every index of refraction
+    use_stub("pyrex.internal_functions.normalize", lambda v: v)
+    ws = [(real("weight_%d" % i), real("sw_%d" % i), real("iw_%d" % i)) for i in (0, 1)]
+    for w, sw, iw in ws:
+        assume(And(w >= 0, sw >= 0, iw >= 0, w <= 1, sw <= 1, iw <= 1))      # probabilities, zero included
+    parts = [FakeParticle(i, ws[i][0], ws[i][1], ws[i][2]) for i in (0, 1)]
+    ant = FakeAntenna(0)
+    made = []
+
+    class Tracer:
+        def __init__(self, from_point, to_point, ice_model=None):
+            p = 0 if from_point[2] == -500 else 1
+            self.exists = True
+            self.solutions = [FakePath(p, real("tof_%d" % p), vec("e_%d" % p))]
+            made.append(p)
+    ice = obj("pyrex.ice_model.AntarcticIce", n0=1.78, k=0.43, a=0.0132, valid_range=(-2850, 0), _index_above=1, _index_below=None)
+    k = new(EK, FakeGenerator([parts]), [ant], ice_model=ice, ray_tracer=Tracer, signal_model=lambda **kw: ("pulse",),
+            signal_times=symarr("signal_times"), event_writer=None, triggers=None, offcone_max=40, weight_min=weight_min)
+    k.event()
+    if pair:
+        skip = [Or(ws[i][1] < weight_min[0], ws[i][2] < weight_min[1]) for i in (0, 1)]
+    else:
+        skip = [ws[i][0] < weight_min for i in (0, 1)]
+    prove(tag + ":signals-only-for-particles-passing-the-cut", len(ant.received) == ite(skip[0], 0, 1) + ite(skip[1], 0, 1))
+    prove(tag + ":skipped-particles-are-not-ray-traced", len(made) == ite(skip[0], 0, 1) + ite(skip[1], 0, 1))
+
+
+@harness(clause="delivery")
+def weight_cut_scalar_form():
+    _weight_cut("scalar", real("weight_min", 0, 1), False)
+
+
+@harness(clause="delivery")
+def weight_cut_pair_form():
+    _weight_cut("pair", (real("sw_min", 0, 1), real("iw_min", 0, 1)), True)
